@@ -138,7 +138,7 @@ Definition unit_violation_region (sp : uspell) (u : aunit) (out : iunit) : nat :
   | IUOk a args r vars =>
     let e := spec_unit u in
     let f := region_of_name sp u (au_decls u) 0 in
-    let pre := prefix_region sp u in
+    let pre := 0 in
     let ra := if list_eqb seqb (u_attribs e) a then Covered 0 else attr_of_region pre in
     let rr := match u_retvar e, r with
               | None, None => Covered 0
